@@ -874,7 +874,7 @@ func eqnil(t types.Type, x, y value) bool {
 				return false // y is an abstract (non-nil) byte string, x the nil literal
 			}
 			return (x != nil) == (y.([]value) != nil)
-		case *absBytes, *wireBlob:
+		case *absBytes, *wireBlob, *absCat:
 			return false // abstract byte strings are never nil; the other operand is the nil literal
 		}
 		panic(fmt.Sprintf("eqnil(%s): illegal dynamic type: %T", t, x))
@@ -1016,6 +1016,10 @@ func callBuiltin(caller *frame, callpos token.Pos, fn *ssa.Builtin, args []value
 			}
 			return arg0
 		}
+		// abstract byte strings concatenate into a rope
+		if isAbsBytes(args[0]) || isAbsBytes(args[1]) {
+			return catAbs(args[0], args[1])
+		}
 		// append([]T, ...[]T) []T
 		return append(args[0].([]value), args[1].([]value)...)
 
@@ -1075,6 +1079,19 @@ func callBuiltin(caller *frame, callpos token.Pos, fn *ssa.Builtin, args []value
 			return len(x)
 		case *absBytes:
 			return caller.i.p.byteLen(x.t)
+		case *absCat:
+			var total value = int(0)
+			for _, part := range x.parts {
+				var l value
+				switch pt := part.(type) {
+				case []value:
+					l = len(pt)
+				case *absBytes:
+					l = caller.i.p.byteLen(pt.t)
+				}
+				total = binop(caller, token.ADD, types.Typ[types.Int], total, l)
+			}
+			return total
 		case *gomap:
 			return x.len()
 		case *channel:
